@@ -155,6 +155,26 @@ def run(ctx, eng):
                        'peer\'s settings would stay stale)')
         if rs and cm.calls_to(p, '_prepare_for_sending'):
             bad.append('the ACK for the HTTP2-Settings frame is emitted')
+        # what is applied is what was parsed: nothing edits the frame (its
+        # settings mapping in particular) between parse_body and the apply
+        if pb and rs:
+            lo, hi = p.index(pb[0]), p.index(rs[0])
+            for e in p.events[lo + 1:hi]:
+                touched = None
+                if e.kind in ('store', 'del') and \
+                        pb[0].recv in list(cm._subterms(e.container)):
+                    touched = 'item assignment'
+                if e.kind == 'write' and e.base == pb[0].recv:
+                    touched = 'attribute %s' % e.attr
+                if e.kind == 'call' and e.get('recv') is not None and \
+                        pb[0].recv in list(cm._subterms(e.recv)) and \
+                        cm.ev_callee_names(e) & {
+                            'pop', 'popitem', 'clear', 'update',
+                            'setdefault', '__setitem__', '__delitem__'}:
+                    touched = 'call of %s' % sorted(cm.ev_callee_names(e))
+                if touched:
+                    bad.append('the parsed frame is edited before it is '
+                               'applied (%s)' % touched)
     ctx.ob('FLOW.codec', fi.qual, 'server applies HTTP2-Settings',
            n_srv > 0 and not bad, '; '.join(sorted(set(bad))) or
            'urlsafe_b64decode -> SettingsFrame.parse_body -> '
@@ -254,3 +274,14 @@ def run(ctx, eng):
                'stream 1 is used up by the upgrade on both sides: every '
                'creation path records the id in the watermark of its '
                'direction')
+    # "neither side can send a request body on it": on the state the upgrade
+    # leaves each side in, the body-carrying inputs are refused exactly as
+    # the reference machine refuses them
+    from .c06 import compare_cells, feedable_from_source
+    feedable = feedable_from_source(eng, ctx)
+    compare_cells(eng, ctx, feedable, rule='FSM.no-body',
+                  inputs={'SEND_DATA', 'SEND_END_STREAM', 'SEND_HEADERS'},
+                  states_filter=lambda s: s.st == 'HALF_CLOSED_LOCAL')
+    compare_cells(eng, ctx, feedable, rule='FSM.no-body',
+                  inputs={'RECV_DATA', 'RECV_END_STREAM', 'RECV_HEADERS'},
+                  states_filter=lambda s: s.st == 'HALF_CLOSED_REMOTE')
